@@ -50,3 +50,58 @@ func (t *Timer) Reset(d time.Duration) bool {
 	t.C = After(d)
 	return was
 }
+
+// AfterFunc runs f in a thread of its own when the explorer lets the timer fire.
+func AfterFunc(d time.Duration, f func()) *Timer {
+	if vsched.Mode() == vsched.ModeFree {
+		rt := time.AfterFunc(d, f)
+		_ = rt
+		return &Timer{}
+	}
+	t := &Timer{C: After(d)}
+	c := t.C
+	vsched.GoNamed("time.AfterFunc", func() {
+		if _, ok := c.Recv2(); ok {
+			f()
+		}
+	})
+	return t
+}
+
+// Ticker ticks at most maxTicks times per execution (a bounded unrolling of a periodic
+// source; each tick is a timer the explorer fires when it decides to).
+type Ticker struct {
+	C    *vsched.Chan[time.Time]
+	cur  *vsched.Chan[time.Time]
+	stop *vsched.Chan[struct{}]
+}
+
+const maxTicks = 2
+
+func NewTicker(d time.Duration) *Ticker {
+	tk := &Ticker{C: vsched.MakeChan[time.Time](1).SetName("ticker.C"), stop: vsched.MakeChan[struct{}]().SetName("ticker.stop")}
+	if vsched.Mode() != vsched.ModeSched {
+		return tk
+	}
+	vsched.GoNamed("time.Ticker", func() {
+		for i := 0; i < maxTicks; i++ {
+			tc := After(d)
+			rt, rs := vsched.RecvCase(tc), vsched.RecvCase(tk.stop)
+			s := vsched.Select(false, rt, rs)
+			if s.I != 0 {
+				vsched.StopTimer(tc)
+				return
+			}
+			vsched.Select(true, vsched.SendCase(tk.C, rt.Val(s))) // a slow receiver loses ticks
+		}
+	})
+	return tk
+}
+
+func (t *Ticker) Stop() {
+	if vsched.Mode() == vsched.ModeSched && !t.stop.RawClosed() {
+		t.stop.Close()
+	}
+}
+
+func (t *Ticker) Reset(d time.Duration) {}
